@@ -581,6 +581,26 @@ def _one_call(t, comp, w, opn, requested, opts):
             pass
 
 
+def attempts_of(t):
+    """The source attempts of one compile() call, from the recorded history: one record per getData call with the
+    parse and symbol-table calls that followed it.  'ok' = text obtained, parsed to >= 1 module, every module of the
+    file passed the symbol-table stage (only then are the file's modules taken)."""
+    out = []
+    for c in t.calls:
+        if c.site == 'src.getData':
+            out.append({'name': c.mib, 'src': c.comp, 'got': c.ok, 'ok': c.ok, 'mods': [], 'parse_calls': 0, 'exc': c.exc})
+        elif c.site == 'parser.parse' and out:
+            a = out[-1]
+            a['parse_calls'] += 1
+            a['ok'] = a['ok'] and c.ok and bool(c.res)
+        elif c.site == 'symtab.genCode' and out:
+            a = out[-1]
+            a['ok'] = a['ok'] and c.ok
+            if c.ok:
+                a['mods'].append((c.mib, c.kw.get('ast'), c.res[0]))
+    return out
+
+
 def status_digest(R):
     if R is None:
         return None
